@@ -612,7 +612,21 @@ def sorted_keys_oracle(ctx):
     import icalendar.cal as cal
     comps = [o for o in vars(cal).values() if isinstance(o, type) and issubclass(o, cal.Component)]
     extra = ['X-B', 'x-a', 'ATTENDEE', 'Zz', 'aa', 'COMMENT']
+    from harness.props.C02 import RFC as RFC_NAMES        # the property names of RFC 5545, written from the RFC
     for cls in comps:
+        # "the component's priority names ... in their declared order": the declaration is a sequence (an order)
+        # of distinct property names - not a set, not a one-shot iterator, not two names run together
+        decl = cls.canonical_order
+        ctx.evaluated(('order-declaration', cls.__name__))
+        if decl is not None:
+            if not isinstance(decl, (tuple, list)):
+                ctx.violation('priority-declaration', {'cls': cls.__name__},
+                              f'{cls.__name__}.canonical_order is a {type(decl).__name__}, which declares no order')
+                continue
+            badn = [n for n in decl if not isinstance(n, str) or (n.upper() not in RFC_NAMES and not n.upper().startswith('X-'))]
+            if badn or len(set(decl)) != len(decl):
+                ctx.violation('priority-declaration', {'cls': cls.__name__, 'names': [str(n) for n in decl]},
+                              f'{cls.__name__}.canonical_order holds entries that are not property names, or repeats: {badn!r}')
         order = list(cls.canonical_order or ())
         for _ in range(ctx.vol(30)):
             names = ctx.rng.sample(order, min(len(order), ctx.rng.randint(0, 5))) + ctx.rng.sample(extra, ctx.rng.randint(0, 4))
